@@ -54,6 +54,9 @@ def make_probes(rng, tier):
     add("lazyw", rng.choice(KINDS), rng.choice([140000, 300000]), 0, 1, [(P_LEVEL, rng.choice([5, 7, 9])), (P_WLOG, rng.choice([10, 14, 17]))])
     add("btopt", rng.choice(["text", "mix", "records"]), rng.choice([9000, 40000, 70000]), rng.choice([0, 0, 2]), rng.choice([0, 1]),
         rng.choice([[(P_LEVEL, 16)], [(P_LEVEL, 19)], [(P_LEVEL, 3), (P_STRAT, 7), (P_WLOG, 17)], [(P_LEVEL, 3), (P_STRAT, 9), (P_WLOG, 16)], [(P_LEVEL, 13)]]))
+    # a digested dictionary used in copy mode by the optimal parser (3-byte hash table), on a context with a history
+    add("cdictcopy", rng.choice(["text", "mix", "records"]), rng.choice([40000, 70000]), 4, rng.choice([0, 1]),
+        rng.choice([[(P_LEVEL, 16), (1001, 2)], [(P_LEVEL, 19), (1001, 2)], [(P_LEVEL, 3), (P_STRAT, 7), (P_WLOG, 17), (1001, 2)], [(P_LEVEL, 17)]]))
     add("ldm", rng.choice(["blockdup", "longrep", "records", "copies"]), rng.choice([300000, 700000]), 0, rng.choice([0, 1]), [(P_LEVEL, rng.choice([1, 3, 6])), (P_LDM, 1), (P_WLOG, rng.choice([18, 20, 21]))])
     add("bare", rng.choice(KINDS), rng.choice([1000, 140000]), 0, 0, [])
     add("bare", rng.choice(KINDS), rng.choice([1000, 140000]), 0, 1, [])
@@ -83,7 +86,10 @@ def concretise(rng, hist, meta):
             out.append("TINY:%d:%d" % (rng.choice([lvl, lvl, 16, 19]), rng.choice([1, 7, 8, 8, 9])))
         elif op == "Abort":
             sz = rng.choice([50000, 300000]) if lvl < 13 else 30000
-            out.append("A:%d:%d:%d" % (rng.choice([lvl, 3, 7]), sz, rng.choice([1, 1000, sz // 2, sz - 1, sz])))
+            if meta.get("mt") and rng.random() < 0.7:
+                out.append("MTA:%d:%d:%d" % (rng.choice([1, 2, 3]), 2500000, rng.choice([700001, 1300000, 2000001])))      # abandoned with jobs posted
+            else:
+                out.append("A:%d:%d:%d" % (rng.choice([lvl, 3, 7]), sz, rng.choice([1, 1000, sz // 2, sz - 1, sz])))
         elif op == "Fail":
             out.append("E:%d:%d" % (rng.choice([lvl, 1, 6]), rng.choice([20, 5000, 200000]) if lvl < 13 else 5000))
         elif op == "ResetS":
@@ -131,8 +137,11 @@ def run(tier):
                     runs.append((0, 0, 0, rng.choice([0, 1000]), w, []))
                 runs.append((0, 0, 0, 0, 2, []))
             # directed histories every probe gets: the same data (or a part of it) compressed before with the same parameters
-            for dh in (["SAME"], ["PART:3:4"], ["PART:1:2", "SAME"], ["TINY:%d:8" % (meta["level"] or 3)], ["TINY:19:7"]):
-                runs.append((0, 0, 0, 0, (rng.choice([1, 2, 4]) if meta["mt"] else -1), dh, tuple("Fsame" if x[0] in "SP" else "Ftiny" for x in dh)))
+            dlist = [["SAME"], ["PART:3:4"], ["PART:1:2", "SAME"], ["TINY:%d:8" % (meta["level"] or 3)], ["TINY:19:7"]]
+            if meta["mt"]:
+                dlist += [["MTA:2:2500000:1300001", "RS"], ["MTA:3:2500000:2000000", "RS"]]
+            for dh in dlist:
+                runs.append((0, 0, 0, 0, (rng.choice([1, 2, 4]) if meta["mt"] else -1), dh, tuple("Fsame" if x[0] in "SP" else ("Abort" if x[0] in "MR" else "Ftiny") for x in dh)))
             for _ in range(nh_per_probe):
                 h = H[hi % len(H)]; hi += 1
                 ch = concretise(rng, h, meta)
